@@ -384,9 +384,7 @@ impl CodegenContext {
                     Some(existing) => {
                         if existing.ty != symbol.ty
                             || existing.read_only() != symbol.read_only()
-                            || (existing.pass_idx == symbol.pass_idx
-                                && existing.data != symbol.data
-                                && existing.read_only())
+                            || (existing.pass_idx == symbol.pass_idx && existing.read_only())
                         {
                             // Generated symbols (e.g. 'segments.<name>.start') have no span of their own: point at the symbol they clash with
                             let mut diag = Diagnostic::error()
